@@ -436,6 +436,47 @@ class SymPattern:
             caps[gid] = (a, b)
         return SymMatch(ok, s, caps)
 
+    def search(self, s):
+        """leftmost match starting at any position (priority: smaller start first, then the pattern's own alternative order)"""
+        if isinstance(s, str):
+            return self.real.search(s)
+        alts = []
+        for i in range(s.m + 1):
+            for (g, j, c) in self._seq(s, list(self.tree), 0, i, False):
+                alts.append((z3.And(i <= s.n, g), j, c, i))
+        ok = z3.Or([g for (g, _j, _c, _i) in alts]) if alts else z3.BoolVal(False)
+        gids = sorted({g for (_g, _j, c, _i) in alts for g in c})
+        caps = {}
+        for gid in gids:
+            a = z3.IntVal(0)
+            b = z3.IntVal(0)
+            for (g, _j, c, _i) in reversed(alts):
+                if gid in c:
+                    a = z3.If(g, c[gid][0], a)
+                    b = z3.If(g, c[gid][1], b)
+                else:
+                    a = z3.If(g, 0, a)
+                    b = z3.If(g, 0, b)
+            caps[gid] = (a, b)
+        return SymMatch(ok, s, caps)
+
+    def fullmatch(self, s):
+        if isinstance(s, str):
+            return self.real.fullmatch(s)
+        alts = [(z3.And(g, j == s.n), j, c) for (g, j, c) in self._seq(s, list(self.tree), 0, 0, False)]
+        ok = z3.Or([g for (g, _j, _c) in alts]) if alts else z3.BoolVal(False)
+        gids = sorted({g for (_g, _j, c) in alts for g in c})
+        caps = {}
+        for gid in gids:
+            a = z3.IntVal(0)
+            b = z3.IntVal(0)
+            for (g, _j, c) in reversed(alts):
+                if gid in c:
+                    a = z3.If(g, c[gid][0], a)
+                    b = z3.If(g, c[gid][1], b)
+            caps[gid] = (a, b)
+        return SymMatch(ok, s, caps)
+
     def sub(self, repl, s):
         if isinstance(s, str):
             return self.real.sub(repl, s)
@@ -482,6 +523,26 @@ class ReShim:
     @staticmethod
     def compile(pattern, flags=0):
         return SymPattern(pattern, flags)
+
+    @staticmethod
+    def search(pattern, s, flags=0):
+        return SymPattern(pattern, flags).search(s)
+
+    @staticmethod
+    def fullmatch(pattern, s, flags=0):
+        return SymPattern(pattern, flags).fullmatch(s)
+
+    @staticmethod
+    def sub(pattern, repl, s, count=0, flags=0):
+        if count:
+            raise NotImplementedError("re.sub with count")
+        return SymPattern(pattern, flags).sub(repl, s)
+
+    @staticmethod
+    def split(pattern, s, maxsplit=0, flags=0):
+        if maxsplit:
+            raise NotImplementedError("re.split with maxsplit")
+        return SymPattern(pattern, flags).split(s)
 
 
 # ---------------------------------------------------------------- running real functions
@@ -783,8 +844,10 @@ def run_obligation(body, base, describe, replay, twin=False, timeout=120):
                 out.update(verdict="refuted", cex=cex, cex_message=repr(cex)[:600], reproduced=bool(rep), replay={"reproduced": bool(rep)})
             else:
                 out.update(verdict="discharged")
-    except NotImplementedError as e:
-        out.update(verdict="inconclusive", messages=[{"state": "UNSUPPORTED", "message": repr(e)[:300]}])
+    except (NotImplementedError, TypeError, AttributeError) as e:
+        # an operation on a proxy that symx does not model (never silently treated as holding)
+        import traceback as _tb
+        out.update(verdict="inconclusive", messages=[{"state": "UNSUPPORTED", "message": (repr(e) + " @ " + _tb.format_exc()[-400:])[:700]}])
     except z3.Z3Exception as e:
         out.update(verdict="inconclusive", messages=[{"state": "Z3", "message": repr(e)[:300]}])
     if getattr(ex, "unknown", 0):
